@@ -30,7 +30,10 @@ def main():
     tier = 'quick'
     if '--tier' in args:
         tier = args[args.index('--tier') + 1]
-    ids = [a for a in args if not a.startswith('--') and a != tier]
+    only = None
+    if '--checks' in args:
+        only = args[args.index('--checks') + 1].split(',')
+    ids = [a for a in args if not a.startswith('--') and a != tier and (only is None or a != ','.join(only))]
     sdir = os.path.join(VERIF, 'seeded')
     if not ids:
         ids = sorted(d for d in os.listdir(sdir) if os.path.isfile(os.path.join(sdir, d, 'patch.diff')))
@@ -67,7 +70,8 @@ def main():
                 entry['demo_mutant_exit'] = r1.returncode
                 rt = sh('cd %s && %s -m pytest -q -p no:cacheprovider 2>&1 | tail -1' % (WT, PY), timeout=1200)
                 entry['tests'] = rt.stdout.strip()
-            checks = registered if allchecks else [prop]
+            checks = registered if allchecks else (only or [prop])
+            entry = dict(results.get(mid, {}), **entry)
             entry.setdefault('checks', {})
             for c in checks:
                 if c not in registered:
